@@ -629,7 +629,7 @@ def run(ctx):
         for c in DIRECTED_OPS:
             ctx.run_case(op_case, dict(c))
     rng = ctx.rng
-    n = ctx.scale(5000, 150000)
+    n = ctx.scale(20000, 250000)
     for i in range(n):
         dt = rng.choice(POOL)
         k = rng.choice([0, 1, 2, 3, 5, 8, 8, 13, 40])
@@ -640,7 +640,7 @@ def run(ctx):
         ctx.run_case(lambda x, kk: list_program(x, kk, ns), case)
         if i % 499 == 0:
             ctx.sample({'dtype': dt.spec, 'items': items[:5], 'trailing': tr, 'steps': case['steps'][:5]})
-    for i in range(ctx.scale(8000, 250000)):
+    for i in range(ctx.scale(32000, 400000)):
         c = gen_op_case(ctx)
         ctx.run_case(op_case, c)
         if i % 1999 == 0:
